@@ -30,7 +30,8 @@ ID = "C19"
 MOD = "mc.props.c19"
 
 RANGES = {"R1": (0.0, 2000.0, 0.0, 40.0),      # T and P ranges overlap only partially
-          "R2": (0.0, 40.0, 0.0, 40.0)}        # T and P ranges coincide numerically
+          "R2": (0.0, 40.0, 0.0, 40.0),        # T and P ranges coincide numerically
+          "R3": (300.0, 2300.0, 10.0, 50.0)}   # first grid values are not zero (extract: 0 is "below first")
 GRIDS = {"41x41": (41, 41), "81x41": (81, 41), "21x21": (21, 21), "81x81": (81, 81)}
 IJ_SMALL = [(1, 1), (1, 2), (4, 4)]
 ALLDOC = R.documented_tp_files()
@@ -180,6 +181,10 @@ def _request(grid, req):
         if kind == "mid+":
             return mid + eps, pos + 1
         return mid, None
+    if kind == "literal":                       # the text is passed to the command verbatim
+        y = float(req["text"])
+        k, unamb = R.nearest_index(grid, y)
+        return y, (k if unamb else None)
     if kind == "below":
         return grid[0] - 3.7 * h, 0
     if kind == "above":
@@ -292,8 +297,8 @@ def run_extract(case):
             k, unamb = R.nearest_index(grid, y)
             if (want is None) == unamb or (want is not None and k != want):
                 raise HarnessError(f"request {req} on {case['grid']}: constructed index {want}, reference {k}/{unamb}")
-            reqname = req["kind"]
-            args = ["extract", "-v", ",".join(variables), "-" + axis, _fmt(y)] + (["-h"] if hide else [])
+            reqname = req["kind"] if req["kind"] != "literal" else "literal(%s)" % req["text"]
+            args = ["extract", "-v", ",".join(variables), "-" + axis, req.get("text") or _fmt(y)] + (["-h"] if hide else [])
             code, exc, out = _invoke(d, args)
             if code != 0 or exc is not None:
                 viol.append(V(f"c19:extract:{axis}:crash:{type(exc).__name__}",
@@ -422,6 +427,58 @@ def _geotherm_rows(spec, pts):
     return rows, byrole
 
 
+ROW_ORDERS = ["asis", "dup-first", "dup-middle", "dup-last", "dup-two", "dup-apart", "same-PT-other-passthrough",
+              "reversed", "zigzag", "P-decreasing"]
+
+
+def _arrange(spec, pts, rows, byrole, how):
+    """The multiset and order of the rows of the geotherm file.  The statement is per row: output row k
+    carries the file's row k and the value at ITS (P,T); a file may list a point twice (a discontinuity),
+    need not be monotonic, and may come deepest-first."""
+    n = len(pts)
+    idx = list(range(n))
+    if how == "asis":
+        pass
+    elif how == "dup-first":
+        idx = [0] + idx
+    elif how == "dup-middle":
+        idx = idx[:n // 2 + 1] + idx[n // 2:]
+    elif how == "dup-last":
+        idx = idx + [n - 1]
+    elif how == "dup-two":
+        a, b = n // 3, (2 * n) // 3
+        idx = idx[:a + 1] + idx[a:b + 1] + idx[b:]
+    elif how == "dup-apart":
+        idx = idx + [0]                                  # an exact repeat that is not adjacent
+    elif how == "same-PT-other-passthrough":
+        idx = idx[:n // 2 + 1] + [("mod", n // 2)] + idx[n // 2 + 1:]
+    elif how == "reversed":
+        idx = idx[::-1]
+    elif how == "zigzag":
+        idx = [idx[i // 2] if i % 2 == 0 else idx[n - 1 - i // 2] for i in range(n)]
+    elif how == "P-decreasing":
+        idx = sorted(idx, key=lambda i: (-pts[i][0], i))
+    else:
+        raise HarnessError(f"unknown row order {how}")
+    P2, R2, B2 = [], [], []
+    for i in idx:
+        if isinstance(i, tuple):
+            i = i[1]
+            vals = dict(byrole[i])
+            vals.update({"D": vals["D"] + 0.5, "n": vals["n"] + 1, "t": vals["t"] - 0.5, "p": vals["p"] + 0.5})
+            P2.append(pts[i])
+            B2.append(vals)
+            R2.append([vals[role] for _, role in spec])
+        else:
+            P2.append(pts[i])
+            B2.append(byrole[i])
+            R2.append(list(rows[i]))
+    base = sorted(i[1] if isinstance(i, tuple) else i for i in idx)
+    if set(base) != set(range(n)) or (how in ("asis", "reversed", "zigzag", "P-decreasing") and base != list(range(n))):
+        raise HarnessError(f"row order {how} loses or repeats points: {idx}")
+    return P2, R2, B2
+
+
 def _is_node(x, lo, hi, n):
     s = (x - lo) / (hi - lo) * (n - 1)
     return abs(s - round(s)) < 1e-9
@@ -538,6 +595,7 @@ def run_geotherm(case):
     hide = bool(case.get("hide"))
     pts = geotherm_path(dom, case["path"], case["npts"])
     rows, byrole = _geotherm_rows(spec, pts)
+    pts, rows, byrole = _arrange(spec, pts, rows, byrole, case.get("rows", "asis"))
     levels = [GRIDS[g] for g in case["grids"]]
     probe = case.get("layout") == "LN"
     viol, st = [], _new_state()
@@ -588,7 +646,7 @@ def run_geotherm(case):
                                       "values-correct" if stt and not sw else f"mixed({sw},{stt})"))
         return {"viol": viol, "outcome": outcome, "nontrivial": False}
     lay = case.get("family") or case.get("layout")
-    outcome = f"geotherm:{kind}:{case['path']}:{lay}:" + ("ok" if not viol else "bad")
+    outcome = f"geotherm:{kind}:{case['path']}:{lay}:{case.get('rows', 'asis')}:" + ("ok" if not viol else "bad")
     res = {"viol": _cap(viol), "outcome": outcome, "nontrivial": st["nodes"] + st["between"] > 0}
     res.update(info)
     return res
@@ -720,11 +778,14 @@ def extract_requests():
             reqs.append({"kind": "mid-", "pos": p, "inv_eps": inv})
             reqs.append({"kind": "mid+", "pos": p, "inv_eps": inv})
     reqs += [{"kind": "below"}, {"kind": "above"}, {"kind": "mid0", "pos": "inner"}]
+    # valid requests whose value is falsy in Python: zero in several spellings (the first grid value on
+    # R1/R2 -- also requested as 'node first' = repr(grid[0]) -- and below the first one on R3)
+    reqs += [{"kind": "literal", "text": t} for t in ("0", "0.0", "-0.0", "0e0")]
     return reqs
 
 
 def extract_cases(quick):
-    grids = [("R1", "81x41")] if quick else [("R1", "41x41"), ("R1", "81x41"), ("R2", "41x41")]
+    grids = [("R1", "81x41")] if quick else [("R1", "41x41"), ("R1", "81x41"), ("R2", "41x41"), ("R3", "41x41")]
     cases = []
     for rng, g in grids:
         for nv in (1, 2, 5):
@@ -804,6 +865,21 @@ def header_order_cases(quick):
     return cases
 
 
+def row_order_cases(quick):
+    """Row multiset / order of the geotherm file x path kind x number of points x range (x layout, function)."""
+    cases = []
+    fns = [("poly3", ["41x41"])] if quick else [("poly3", ["41x41"]), ("poly3", ["81x41"]), ("smooth", ["21x21", "41x41", "81x81"])]
+    for how in ROW_ORDERS:
+        for rng in ("R1", "R2"):
+            for fn, grids in fns:
+                for path in ("nodes", "between", "mixed"):
+                    for npts in (1, 3, 50):
+                        for layout in (("L0",) if quick else ("L0", "L1", "L3")):
+                            cases.append({"kind": "geotherm", "range": rng, "fn": fn, "grids": grids, "path": path, "npts": npts,
+                                          "nvars": 2, "layout": layout, "hide": False, "rows": how})
+    return cases
+
+
 def sequence_cases(quick):
     """Mode B: all command histories of length 2..3 (thorough: 2..4 over the larger alphabet)."""
     import itertools
@@ -826,8 +902,9 @@ def explore(ctx):
     q = ctx.quick
     ctx.rule = (
         "full product of the alphabets below, nothing sampled. extract: {grid} x {1,2,5 variables} x {-T,-P} x "
-        "{header, -h} x {requested order, reversed} x 18 requests {node first/inner/last; midpoint -/+ eps (eps = h/8, "
-        "h/1024) in the first/an inner/the last cell; below first; above last; exact midpoint (recorded, not asserted)}; "
+        "{header, -h} x {requested order, reversed} x 22 requests {node first/inner/last; midpoint -/+ eps (eps = h/8, "
+        "h/1024) in the first/an inner/the last cell; below first; above last; exact midpoint (recorded, not asserted); zero "
+        "spelt 0, 0.0, -0.0, 0e0 (= first grid value on R1/R2, below the first on R3: T 300.., P 10..)}; "
         "every documented pressure-base variable name alone in a directory with all 51 documented tables + volume-base "
         "files + decoys; the same requests on tables written by qha's own save_x_tp; thorough: every node and both sides of every "
         "midpoint of each whole axis. geotherm: {R1: T 0..2000/P 0..40, "
@@ -836,7 +913,10 @@ def explore(ctx):
         "depth,pres,temp with explicit --t-col/--p-col as the help texts say; thorough: t,D,P,T,p} x {header, -h}; all 24 column "
         "orders of each of 5 four-column headers {P,T,D,t}, {P,T,p,t}, {pres,temp,depth,TEMP}, {pres,temp,PRES,TEMP}, "
         "{PRES,TEMP,pres,temp} (passthrough columns whose names differ from the P/T column's only by letter case, values far "
-        "outside the table). Mode B: every history of length 2..3 (thorough 2..4) over {extract in directory A, extract in "
+        "outside the table); row multiset/order of the geotherm file {as is, an exactly repeated row first/middle/last, two "
+        "repeated rows, a non-adjacent repeat, equal (P,T) with other passthrough values, reversed, zig-zag, P decreasing} x "
+        "{nodes, between, mixed} x {1,3,50 points} x {R1,R2} (oracle per row: output row k = file row k + value at its (P,T); "
+        "as many output rows as input rows). Mode B: every history of length 2..3 (thorough 2..4) over {extract in directory A, extract in "
         "directory B with the same variable names and other tables, rewrite A's tables, extract-geotherm in A, in B} run in one "
         "process, each output compared with the tables on disk at that moment. Non-trivial = at least one "
         "printed value column was compared against a table whose rows, columns and variables are pairwise distinct "
@@ -890,15 +970,19 @@ def _explore(ctx, q):
     gr = timed(geo, "geotherm")
     ho = header_order_cases(q)
     timed(ho, "geotherm-header-orders")
+    ro = row_order_cases(q)
+    timed(ro, "geotherm-row-orders")
     pr = timed(option_name_probes(), "geotherm-option-name-probe")
     ctx.notes["alphabets"] = {
-        "extract": {"grids": 1 if q else 3, "nvars": 3, "axis": 2, "header": 2, "order": 2, "requests": len(extract_requests()),
+        "extract": {"grids": 1 if q else 4, "nvars": 3, "axis": 2, "header": 2, "order": 2, "requests": len(extract_requests()),
                     "cases": len(ec)},
         "file_selection": {"documented_names": len(ALLDOC), "files_in_directory": len(_dir_files("full")), "cases": len(gc)},
         "qha_written": len(qc), "unknown_names": len(uc),
         "every_position": {"cases": len(ap), "requests": sum(len(c["reqs"]) for c in ap)},
         "geotherm": {"ranges": 2, "function_x_grid": 2 if q else 3, "paths": 3, "npts": 3, "nvars": 3,
                      "layouts": 3 if q else 4, "header": 2, "cases": len(geo)},
+        "row_orders": {"arrangements": len(ROW_ORDERS), "ranges": 2, "paths": 3, "npts": 3, "layouts": 1 if q else 3,
+                       "function_x_grid": 1 if q else 3, "cases": len(ro)},
         "header_orders": {"families": len(HEADER_FAMILIES), "orders_each": 24, "ranges": 2, "paths": 1 if q else 4, "cases": len(ho)},
         "sequences": {"operations": len(SEQ_OPS_QUICK if q else SEQ_OPS), "lengths": [2, 3] if q else [2, 3, 4], "cases": len(sq)},
     }
@@ -950,7 +1034,7 @@ def selftest():
                 check([float(c) for c in df.columns] == P2 and [float(i) for i in df.index] == T2, "labels read back")
                 check(np.allclose(Z2, Z, rtol=1e-15, atol=0), "written entries differ from the function by more than %.15e rounding")
         # 2. tables discriminate: rows, columns, variables, transpose pairwise distinct at print precision
-        for rng, g in (("R1", "41x41"), ("R1", "81x41"), ("R2", "41x41")):
+        for rng, g in (("R1", "41x41"), ("R1", "81x41"), ("R2", "41x41"), ("R3", "41x41")):
             dom = RANGES[rng]
             nT, nP = GRIDS[g]
             Tg, Pg = R.grid(dom[0], dom[1], nT), R.grid(dom[2], dom[3], nP)
@@ -1039,6 +1123,20 @@ def selftest():
                     rows_ = {tuple(r[:41:2]) for r in Z} | {tuple(c[:41:2]) for c in Z.T}
                     check(not (rows_ & seen), f"sequence tables of {var} share a row/column (koff {k_})")
                     seen |= rows_
+        # 4c. row arrangements: every one keeps all points; the dup-* ones contain an exactly repeated file row
+        spec0 = LAYOUTS["L1"][0]
+        for npts in (1, 3, 50):
+            pts0 = geotherm_path(RANGES["R1"], "mixed", npts)
+            rows0, by0 = _geotherm_rows(spec0, pts0)
+            for how in ROW_ORDERS:
+                p2, r2, b2 = _arrange(spec0, pts0, rows0, by0, how)
+                check(len(p2) == len(r2) == len(b2) and {tuple(r) for r in rows0} <= {tuple(r) for r in r2}, f"{how}: rows lost")
+                ndup = len(r2) - len({tuple(r) for r in r2})
+                want = {"dup-first": 1, "dup-middle": 1, "dup-last": 1, "dup-apart": 1, "dup-two": 2}.get(how, 0)
+                check(ndup == want, f"{how} ({npts} points): {ndup} exactly repeated rows, expected {want}")
+                if how == "same-PT-other-passthrough":
+                    check(len(r2) == npts + 1 and len({(p[0], p[1]) for p in p2}) == len({(p[0], p[1]) for p in pts0}), how)
+                check(all(r == [b[role] for _, role in spec0] for r, b in zip(r2, b2)), f"{how}: rows and roles disagree")
         # 5. stdout parser, print precision, nearest index
         t = R.parse_stdout("      a     b\n0.0  1.50  -2e+03\n1.0  2.25   nan\n", header=True, has_index=True)
         check(t["names"] == ["a", "b"] and t["labels"] == ["0.0", "1.0"] and t["cols"][1] == ["-2e+03", "nan"], "parse_stdout")
